@@ -385,6 +385,8 @@ fn store_return_data(
 
         for (count, internal_offset) in (0..size_limit).step_by(32).enumerate() {
             // If we have been told to stop, stop and return an error
+            #[cfg(smlxl_storage_layout_extractor_verif)]
+            crate::verif_hooks::poll_site("op.store_return_data");
             if count % polling_interval == 0 && vm.watchdog().should_stop() {
                 Err(Error::StoppedByWatchdog).locate(instruction_pointer)?;
             }
